@@ -26,4 +26,5 @@ def run(ctx):
     H.sort_before_hash(ctx, "R1", "essential_hash::solution_set_addr::from_solution_addrs_slice", salt=False)
     H.delegation(ctx, "R2")
     H.sha_leaves(ctx, "R2")
+    H.hash_bytes_exact(ctx, "R2")
     H.layout(ctx, "R3")
